@@ -33,8 +33,9 @@ def _history_job(args):
     stats = {}
     sample = None
     for it in range(n):
-        nodes = rules.rand_tree(rng, rng.choice((rules.COLLISION_FREE, rules.ADVERSARIAL)), max_nodes=10)
-        edges = rules.rand_edges(rng, nodes)
+        large = it % 10 == 7
+        nodes = rules.rand_tree(rng, rules.LARGE_POOL, max_nodes=35, max_depth=7) if large else rules.rand_tree(rng, rng.choice((rules.COLLISION_FREE, rules.ADVERSARIAL)), max_nodes=10)
+        edges = rules.rand_edges(rng, nodes, 25 if large else 8)
         mode = "scan" if it % 4 == 0 else "direct"
         if mode == "scan":
             inner = {x for x in nodes if any(m.startswith(x + ".") for m in nodes)}
@@ -42,7 +43,7 @@ def _history_job(args):
         mk = (lambda: rules.make_arch_scan(nodes, edges)) if mode == "scan" else (lambda: rules.make_arch_direct(nodes, edges))
         # the pool of evaluations: module rules, layer rules
         pool = []
-        fp = rules.pick_filters(rng, nodes, strict=rng.random() < 0.5)
+        fp = rules.pick_filters(rng, nodes, strict=rng.random() < 0.5, kmax=5 if large else 3)
         if fp is not None:
             for spec in rules.all_shapes(*fp):
                 pool.append(("rule", spec))
